@@ -362,7 +362,7 @@ func Run(sc Scenario) *Result {
 	var closeDone []chan struct{}
 	closed := false
 	if park != nil {
-		if park.WaitArrived(2 * time.Second) {
+		if park.WaitArrived(300 * time.Millisecond) {
 			rec.Log("note", "parked at "+sc.ParkHook+" running "+sc.ParkOp)
 			opDone := make(chan struct{})
 			go func() {
